@@ -150,11 +150,12 @@ theorem mu_stopStep {cfg : Cfg} {s s' : State} (h : stopStep cfg s = some s') : 
     repeat' (first | contradiction | split at h)
     all_goals (first | (simp at h; done) | (simp only [Option.some.injEq] at h; subst h))
     all_goals (simp only [modifyNth_length, phPot])
-    · have := hmod i (fun nd => { nd with deliv := nd.deliv + nd.buf, buf := 0 }) (by intro nd; simp [thru]) (by intro nd; simp [loc])
-      omega
-    · have := hmod i (fun nd => { nd with stopping := true }) (by intro nd; simp [thru]) (by intro nd; simp [loc, b2n])
-      omega
-    · omega
+    all_goals (first
+      | omega
+      | (have := hmod i (fun nd => { nd with deliv := nd.deliv + nd.buf, buf := 0 }) (by intro nd; simp [thru]) (by intro nd; simp [loc])
+         omega)
+      | (have := hmod i (fun nd => { nd with stopping := true }) (by intro nd; simp [thru]) (by intro nd; simp [loc, b2n])
+         omega))
   | flushed i =>
     simp only [stopStep, hph] at h
     simp only [Option.some.injEq] at h; subst h
